@@ -30,11 +30,12 @@ theorem step_pPublish {s : St} {t v len : Nat} (ht : s.thr t = .pPublish v len) 
 theorem step_pUnlocked {s : St} {t len : Nat} (ht : s.thr t = .pUnlocked len) :
     step s t = setThr s t (.done (.sent len)) := by simp only [step, ht]
 theorem step_cLock {s : St} {t : Nat} (ht : s.thr t = .cLock) :
-    step s t = if s.locked then setThr s t .cSpin else setThr { s with locked := true } t .cLen := by
+    step s t = if s.locked then setThr s t .cSpin else setThr { s with locked := true } t .cLenT := by
   simp only [step, ht]
 theorem step_cSpin {s : St} {t : Nat} (ht : s.thr t = .cSpin) :
-    step s t = if s.locked then setThr s t .cSpin else setThr { s with locked := true } t .cLen := by
+    step s t = if s.locked then setThr s t .cSpin else setThr { s with locked := true } t .cLenT := by
   simp only [step, ht]
+theorem step_cLenT {s : St} {t : Nat} (ht : s.thr t = .cLenT) : step s t = setThr s t .cLen := by simp only [step, ht]
 theorem step_cLen {s : St} {t : Nat} (ht : s.thr t = .cLen) :
     step s t = if s.tail - s.head > 0 then setThr s t .cRead
                else setThr { s with locked := false } t .cEmptyUnlocked := by
@@ -50,7 +51,9 @@ theorem step_cRelease {s : St} {t v : Nat} (ht : s.thr t = .cRelease v) :
 theorem step_cUnlocked {s : St} {t v : Nat} (ht : s.thr t = .cUnlocked v) :
     step s t = setThr s t (.done (.got v)) := by simp only [step, ht]
 theorem step_lLen {s : St} {t : Nat} (ht : s.thr t = .lLen) :
-    step s t = setThr s t (.done (.len (s.tail - s.head))) := by simp only [step, ht]
+    step s t = setThr s t (.lLenH s.tail) := by simp only [step, ht]
+theorem step_lLenH {s : St} {t tl : Nat} (ht : s.thr t = .lLenH tl) :
+    step s t = setThr s t (.done (.len (U32.wsub (U32.wrap tl) (U32.wrap s.head)))) := by simp only [step, ht]
 
 /-- A step of thread `t` never changes the program point of another thread. -/
 theorem step_thr_other (s : St) {t u : Nat} (h : u ≠ t) : (step s t).thr u = s.thr u := by
@@ -276,8 +279,8 @@ def gotState (s : St) (t : Nat) : St :=
 
 def soloSendOk (t v : Nat) : List Act := [.send t v, .step t, .step t, .step t, .step t, .step t]
 def soloSendFull (t v : Nat) : List Act := [.send t v, .step t, .step t, .step t]
-def soloRecvOk (t : Nat) : List Act := [.recv t, .step t, .step t, .step t, .step t, .step t]
-def soloRecvEmpty (t : Nat) : List Act := [.recv t, .step t, .step t, .step t]
+def soloRecvOk (t : Nat) : List Act := [.recv t, .step t, .step t, .step t, .step t, .step t, .step t]
+def soloRecvEmpty (t : Nat) : List Act := [.recv t, .step t, .step t, .step t, .step t]
 
 theorem solo_send_ok_run {s : St} {t : Nat} (v : Nat) (ht : s.thr t = .idle) (hl : s.locked = false)
     (hroom : s.tail - s.head < s.N) : run s (soloSendOk t v) = sentState s t v := by
@@ -362,7 +365,7 @@ theorem solo_recv_empty_of_inv {s : St} (h : Inv s) (t : Nat) (ho : ∀ u, u ≠
 /-- The schedule of one complete solo `send` call of thread `t` (5 own steps suffice on both paths). -/
 def sendActs (t v : Nat) : List Act := [.send t v, .step t, .step t, .step t, .step t, .step t]
 /-- The schedule of one complete solo `recv` call of thread `t`. -/
-def recvActs (t : Nat) : List Act := [.recv t, .step t, .step t, .step t, .step t, .step t]
+def recvActs (t : Nat) : List Act := [.recv t, .step t, .step t, .step t, .step t, .step t, .step t]
 
 /-- One solo `send`: run the call to completion, record the result point, acknowledge. -/
 def soloSend (s : St) (t v : Nat) : St × Loc :=
@@ -598,7 +601,7 @@ theorem blocked_run {s : St} (h : Inv s) {u v len : Nat} (hu : s.thr u = .pWrite
 /-- Program points a `send`/`recv`-calling thread can be at without ever having held the flag since it was idle:
 idle, waiting for the flag, or inside the lock-free `len`. -/
 def blockedLoc : Loc → Prop
-  | .idle | .pLock _ | .pSpin _ | .cLock | .cSpin | .lLen | .done (.len _) => True
+  | .idle | .pLock _ | .pSpin _ | .cLock | .cSpin | .lLen | .lLenH _ | .done (.len _) => True
   | _ => False
 
 theorem blockedLoc_apply {s : St} (hl : s.locked = true) (a : Act) (t : Nat) (hb : blockedLoc (s.thr t)) :
@@ -647,8 +650,10 @@ theorem finishesIn_cUnlocked {s : St} {t v : Nat} (h : s.thr t = .cUnlocked v) :
   finishesIn_step (finishesIn_done (r := .got v) (by simp [step_cUnlocked h]))
 theorem finishesIn_cEmptyUnlocked {s : St} {t : Nat} (h : s.thr t = .cEmptyUnlocked) : FinishesIn s t 1 :=
   finishesIn_step (finishesIn_done (r := .empty) (by simp [step_cEmptyUnlocked h]))
-theorem finishesIn_lLen {s : St} {t : Nat} (h : s.thr t = .lLen) : FinishesIn s t 1 :=
-  finishesIn_step (finishesIn_done (r := .len (s.tail - s.head)) (by simp [step_lLen h]))
+theorem finishesIn_lLenH {s : St} {t tl : Nat} (h : s.thr t = .lLenH tl) : FinishesIn s t 1 :=
+  finishesIn_step (finishesIn_done (r := .len (U32.wsub (U32.wrap tl) (U32.wrap s.head))) (by simp [step_lLenH h]))
+theorem finishesIn_lLen {s : St} {t : Nat} (h : s.thr t = .lLen) : FinishesIn s t 2 :=
+  finishesIn_step (finishesIn_lLenH (tl := s.tail) (by simp [step_lLen h]))
 theorem finishesIn_pPublish {s : St} {t v len : Nat} (h : s.thr t = .pPublish v len) : FinishesIn s t 2 :=
   finishesIn_step (finishesIn_pUnlocked (len := len) (by simp [step_pPublish h]))
 theorem finishesIn_pWrite {s : St} {t v len : Nat} (h : s.thr t = .pWrite v len) : FinishesIn s t 3 :=
@@ -667,6 +672,8 @@ theorem finishesIn_cLen {s : St} {t : Nat} (h : s.thr t = .cLen) : FinishesIn s 
   by_cases hc : s.tail - s.head > 0
   · exact finishesIn_cRead (by simp only [step_cLen h, hc, if_true]; simp)
   · exact (finishesIn_cEmptyUnlocked (by simp only [step_cLen h, hc, if_false]; simp)).mono (by omega)
+theorem finishesIn_cLenT {s : St} {t : Nat} (h : s.thr t = .cLenT) : FinishesIn s t 5 :=
+  finishesIn_step (finishesIn_cLen (by simp [step_cLenT h]))
 theorem finishesIn_pLock {s : St} {t v : Nat} (hl : s.locked = false)
     (h : s.thr t = .pLock v ∨ s.thr t = .pSpin v) : FinishesIn s t 5 := by
   apply finishesIn_step
@@ -674,20 +681,20 @@ theorem finishesIn_pLock {s : St} {t v : Nat} (hl : s.locked = false)
   · exact finishesIn_pCheck (v := v) (by simp [step_pLock h, hl])
   · exact finishesIn_pCheck (v := v) (by simp [step_pSpin h, hl])
 theorem finishesIn_cLock {s : St} {t : Nat} (hl : s.locked = false)
-    (h : s.thr t = .cLock ∨ s.thr t = .cSpin) : FinishesIn s t 5 := by
+    (h : s.thr t = .cLock ∨ s.thr t = .cSpin) : FinishesIn s t 6 := by
   apply finishesIn_step
   rcases h with h | h
-  · exact finishesIn_cLen (by simp [step_cLock h, hl])
-  · exact finishesIn_cLen (by simp [step_cSpin h, hl])
+  · exact finishesIn_cLenT (by simp [step_cLock h, hl])
+  · exact finishesIn_cLenT (by simp [step_cSpin h, hl])
 
-/-- With every other thread idle, any pending operation of `t` completes within 5 of its own steps. -/
+/-- With every other thread idle, any pending operation of `t` completes within 6 of its own steps. -/
 theorem solo_progress_of_inv {s : St} (h : Inv s) {t : Nat} (ho : ∀ u, u ≠ t → s.thr u = .idle)
-    (ht : s.thr t ≠ .idle) : FinishesIn s t 5 := by
+    (ht : s.thr t ≠ .idle) : FinishesIn s t 6 := by
   cases e : s.thr t with
   | idle => exact absurd e ht
   | done r => exact (finishesIn_done e).mono (by omega)
-  | pLock v => exact finishesIn_pLock (unlocked_of_others_idle h ho (by simp [e, holder])) (Or.inl e)
-  | pSpin v => exact finishesIn_pLock (unlocked_of_others_idle h ho (by simp [e, holder])) (Or.inr e)
+  | pLock v => exact (finishesIn_pLock (unlocked_of_others_idle h ho (by simp [e, holder])) (Or.inl e)).mono (by omega)
+  | pSpin v => exact (finishesIn_pLock (unlocked_of_others_idle h ho (by simp [e, holder])) (Or.inr e)).mono (by omega)
   | pCheck v => exact (finishesIn_pCheck e).mono (by omega)
   | pFullUnlocked => exact (finishesIn_pFullUnlocked e).mono (by omega)
   | pWrite v len => exact (finishesIn_pWrite e).mono (by omega)
@@ -695,11 +702,13 @@ theorem solo_progress_of_inv {s : St} (h : Inv s) {t : Nat} (ho : ∀ u, u ≠ t
   | pUnlocked len => exact (finishesIn_pUnlocked e).mono (by omega)
   | cLock => exact finishesIn_cLock (unlocked_of_others_idle h ho (by simp [e, holder])) (Or.inl e)
   | cSpin => exact finishesIn_cLock (unlocked_of_others_idle h ho (by simp [e, holder])) (Or.inr e)
+  | cLenT => exact (finishesIn_cLenT e).mono (by omega)
   | cLen => exact (finishesIn_cLen e).mono (by omega)
   | cEmptyUnlocked => exact (finishesIn_cEmptyUnlocked e).mono (by omega)
   | cRead => exact (finishesIn_cRead e).mono (by omega)
   | cRelease v => exact (finishesIn_cRelease e).mono (by omega)
   | cUnlocked v => exact (finishesIn_cUnlocked e).mono (by omega)
   | lLen => exact (finishesIn_lLen e).mono (by omega)
+  | lLenH tl => exact (finishesIn_lLenH e).mono (by omega)
 
 end Mutiny.LockRing
